@@ -63,6 +63,8 @@ type DuoCfg struct {
 	NATA, NATB int
 	// RelayA/RelayB give the agent a relay candidate (TURN stub allocating on a relay host).
 	RelayA, RelayB bool
+	// ConfigA/ConfigB: build the agent with the AgentConfig constructor instead of options (Opts* are then unused).
+	ConfigA, ConfigB *ice.AgentConfig
 }
 
 // NewDuo builds the world and both agents (not yet gathering).
@@ -128,6 +130,11 @@ func NewDuo(c *core.Ctx, cfg DuoCfg) (*Duo, error) {
 			// second, indistinguishable srflx gatherer: their listens could not be ordered canonically)
 			urls := []*stun.URI{u}
 			o = append(o, ts.Option(), ice.WithUrls(urls), ice.WithRelayAcceptanceMinWait(0), ice.WithSTUNGatherTimeout(300*time.Millisecond))
+		}
+		if c := map[string]*ice.AgentConfig{"A": cfg.ConfigA, "B": cfg.ConfigB}[name]; c != nil {
+			// the AgentConfig constructor: no options can be combined with it, so only plain host setups
+			c.NetworkTypes = []ice.NetworkType{ice.NetworkTypeUDP4}
+			return NewAgentFromConfig(name, h, d.Start, c)
 		}
 		return NewAgent(name, h, d.Start, append(o, opts...)...)
 	}
